@@ -285,6 +285,7 @@ def write_replay(pid, run_seed_, values, labels, violation, res, note=""):
         "edigest": res["edigest"],
         "wdigest": res["wdigest"],
         "workload": res["sample"],
+        "trace": res.get("trace"),      # schedule / fault trace of the minimised run
         "note": note,
     }
     with open(path, "w") as f:
